@@ -317,9 +317,122 @@ def shards(tier, seed):
     return [{"seed": seed, "first": i, "n": per, "cycles": 350 if tier == "quick" else 1000} for i in range(0, n, per)]
 
 
+class EmptyPoint(Elaboratable):
+    """allow_empty=True: write -> [fifo] -> take (the item leaves completely) -> (no live field, only a token) -> give -> [fifo] -> read."""
+
+    def __init__(self, fifo1, fifo2):
+        self.fifo1, self.fifo2 = fifo1, fifo2
+        self.write, self.take = Method(i=[("d", 8)]), Method(o=[("d", 8)])
+        self.give, self.read = Method(i=[("e", 8)]), Method(o=[("e", 8)])
+        self.clear = Method()
+
+    def elaborate(self, platform):
+        m = TModule()
+        m.submodules.p = pb = PipelineBuilder(allow_empty=True)
+        pb.add_external(self.write)
+        if self.fifo1:
+            pb.fifo(self.fifo1)
+        pb.add_external(self.take)
+        pb.add_external(self.give)
+        if self.fifo2:
+            pb.fifo(self.fifo2)
+        pb.add_external(self.read)
+        self.clear.provide(pb.clear)
+        return m
+
+
+def run_empty_point(rec, rnd, cycles, idx):
+    """Pipelines with a point where no field is live. Safety oracle over counters of the epoch since the last clear (clear is called in cycles of
+    its own): takes return the written values in order, gives never outnumber takes, reads return the given values in order, and after a clear
+    nothing can be taken / given / read before something new was written / taken / given."""
+    fifo1, fifo2 = rnd.choice([None, 1, 2]), rnd.choice([None, 1, 4])
+    case = {"pipeline": idx, "shape": "allow_empty: write-take-(empty)-give-read", "fifos": [fifo1, fifo2]}
+    with DependencyContext(DependencyManager()):
+        try:
+            dut = EmptyPoint(fifo1, fifo2)
+            circ = SimpleTestCircuit(dut)
+            sim = PysimSimulator(circ, max_cycles=cycles + 20)
+        except Exception:
+            rec.check("builder_accepts_well_formed_pipeline", False, case=case, detail=traceback.format_exc()[-1500:])
+            return
+        rec.check("builder_accepts_well_formed_pipeline", True)
+
+        async def drv(ctx):
+            ios = [circ.write, circ.take, circ.give, circ.read, circ.clear]
+            trig = ctx.tick().sample(*[x for io in ios for x in (io.adapter.done, io.adapter.data_out)])
+            written, given = collections.deque(), collections.deque()
+            ntake = ngive = 0  # in the current epoch
+            nw = ng = 0
+            pr = [rnd.choice([0.3, 0.7, 1.0]) for _ in range(4)]
+            log = collections.deque(maxlen=8)
+            for cyc in range(cycles):
+                if cyc % 50 == 49:
+                    pr = [rnd.choice([0.2, 0.6, 1.0]) for _ in range(4)]
+                clr = rnd.random() < 0.04
+                en = [False] * 4 if clr else [rnd.random() < p for p in pr]
+                wv, gv = (nw * 7 + 1) & 255, (ng * 5 + 2) & 255
+                for io, e in zip(ios[:4], en):
+                    ctx.set(io.adapter.en, e)
+                ctx.set(circ.write.adapter.data_in, {"d": wv})
+                ctx.set(circ.give.adapter.data_in, {"e": gv})
+                ctx.set(circ.clear.adapter.en, clr)
+                _, _, dw, _, dt, ot, dg, _, dr, orr, dc, _ = await trig
+                log.append({"cycle": cyc, "write": bool(dw), "take": bool(dt), "give": bool(dg), "read": bool(dr), "clear": bool(dc),
+                            "epoch": {"written_not_taken": len(written), "taken": ntake, "given": ngive, "given_not_read": len(given)}})
+                det = {"last_cycles": list(log)}
+                if dc:
+                    if written or given or ntake > ngive:
+                        rec.count("clears_with_items_in_flight")
+                        if ntake > ngive:
+                            rec.count("clears_with_an_item_outside_at_the_empty_point")
+                    written.clear()
+                    given.clear()
+                    ntake = ngive = 0
+                    rec.count("clears")
+                    rec.count("cycles")
+                    continue
+                # within a cycle the item can pass several nodes (forwarding): process in pipeline order
+                if dw:
+                    written.append(wv)
+                    nw += 1
+                if dt:
+                    if rec.check("empty_point:take_only_what_was_written_in_order", bool(written) and int(ot.d) == written[0], case=case,
+                                 detail=dict(det, taken=int(ot.d), expected=written[0] if written else None)):
+                        written.popleft()
+                        ntake += 1
+                    else:
+                        return
+                if dg:
+                    if not rec.check("empty_point:give_never_runs_ahead_of_take(clear_discards_the_token)", ngive < ntake, case=case, detail=det):
+                        return
+                    ngive += 1
+                    given.append(gv)
+                    ng += 1
+                if dr:
+                    if rec.check("empty_point:read_only_what_was_given_in_order", bool(given) and int(orr.e) == given[0], case=case,
+                                 detail=dict(det, read=int(orr.e), expected=given[0] if given else None)):
+                        given.popleft()
+                        rec.count("items")
+                    else:
+                        return
+                rec.count("cycles")
+                rec.nontrivial(f"empty_point|f{fifo1}{fifo2}|w{int(dw)}t{int(dt)}g{int(dg)}r{int(dr)}|out{min(ntake - ngive, 3)}")
+
+        sim.add_testbench(drv)
+        try:
+            sim.run()
+        except Exception:
+            if not rec.viol_total:
+                rec.check("simulates", False, case=case, detail=traceback.format_exc()[-1200:])
+    rec.count("pipelines_with_empty_point")
+
+
 def run_shard(spec, rec):
     for i in range(spec["first"], spec["first"] + spec["n"]):
         rnd = random.Random(f"C28:{spec['seed']}:{i}")
+        if i % 8 == 7:
+            run_empty_point(rec, rnd, spec["cycles"], i)
+            continue
         run_pipeline(rec, rnd, spec["cycles"], i, clear_p=0.0 if i % 2 == 0 else rnd.choice([0.01, 0.03, 0.1]))
 
 
@@ -327,9 +440,12 @@ RULE = ("random pipelines of 1-5 stages between an external source and an extern
         "overwriting a field), called-method stages (Adapter mock with random readiness that sees the item id and returns arg+17), external provided "
         "stages in the middle (values supplied by an outside caller, with and without no_dependency), each optionally followed by fifo(1/2/4); random "
         "readiness of source, sink and every mock re-drawn every 60 cycles; half of the pipelines get clear calls (p in {0.01,0.03,0.1}); per-stage "
-        "expected queues; distinct non-trivial case = (sequence of stage kinds with fifo / no_dependency markers, with or without clears)")
+        "expected queues; every eighth pipeline is built with allow_empty=True and has a point where no field is live (write - take - give - read, optional fifos, "
+        "clear called in cycles of its own): takes return the written values in order, gives never outnumber takes, reads return the given values in order, and a "
+        "clear discards everything including the token of an item that is outside; distinct non-trivial case = (sequence of stage kinds with fifo / no_dependency markers, with or without clears)")
 ASSUMPTIONS = ["within a cycle: source entry, stage visits, sink exit are processed in pipeline order and a clear executed in that cycle discards everything still in flight, including an item that entered in the same cycle",
                "the k-th value supplied to an external mid-pipeline stage belongs to the k-th item of the epoch (epoch = interval between clears)"]
 MINIMA = {"quick": {"cycles": 20000, "items": 5000, "stage_visits": 3000, "pipelines_with_fifo": 30, "pipelines_with_no_dependency": 10,
-                    "clears_with_items_in_flight": 100, "backpressure_cycles": 500, "distinct": 40},
+                    "clears_with_items_in_flight": 100, "backpressure_cycles": 500, "pipelines_with_empty_point": 5,
+                    "clears_with_an_item_outside_at_the_empty_point": 20, "distinct": 40},
           "thorough": {"cycles": 2000000, "distinct": 400}}
